@@ -63,6 +63,9 @@ def AltSt.shift (b : Nat) (a : AltSt) : AltSt :=
 def ParseOut.shift (b : Nat) (o : ParseOut) : ParseOut :=
   { res := o.res.shift b, err := o.err.map (Err.shift b), msg := o.msg, st := o.st.shift b }
 
+/-- what `run` returns: the outcome and the context afterwards -/
+def shiftOS (b : Nat) (p : Out × St) : Out × St := (p.1.shift b, p.2.shift b)
+
 /-- the same parser configuration on the shifted file: grammar table, parameters, ghost switch and budget
     unchanged (`run` never looks at `fileSet`) -/
 def shiftCfg (b : Nat) (cfg : Cfg) : Cfg := { cfg with file := shiftFile b cfg.file }
@@ -78,5 +81,41 @@ def shiftP {α : Type} (b : Nat) (r : Nat × α) : Nat × α := (r.1 + b, r.2)
 /-- SkipWhitespaces: (new position, error with its position) -/
 def shiftWs (b : Nat) (r : Nat × Option (Nat × WsErr)) : Nat × Option (Nat × WsErr) :=
   (r.1 + b, r.2.map (shiftP b))
+
+/-! ### "no position below the file's base offset"
+    What `parse` needs so that the rendered location of the reported error can be compared in the two file
+    sets: the error lies inside the file, never in whatever precedes it. -/
+
+mutual
+def Node.posGE (off : Nat) : Node → Prop
+  | .term _ _ p r => off ≤ p ∧ off ≤ r
+  | .empty p => off ≤ p
+  | .eof p => off ≤ p
+  | .nt _ cs p r _ => off ≤ p ∧ off ≤ r ∧ Node.posGEList off cs
+def Node.posGEList (off : Nat) : List Node → Prop
+  | [] => True
+  | n :: ns => Node.posGE off n ∧ Node.posGEList off ns
+end
+
+def Res.posGE (off : Nat) : Res → Prop
+  | .nil => True
+  | .one n => n.posGE off
+  | .list l => ∀ n ∈ l, Node.posGE off n
+
+def errGE (off : Nat) (e : Option Err) : Prop := ∀ x, e = some x → off ≤ x.pos
+
+def Out.posGE (off : Nat) (o : Out) : Prop := o.res.posGE off ∧ errGE off o.err
+
+def CacheEntry.posGE (off : Nat) (e : CacheEntry) : Prop := e.res.posGE off ∧ errGE off e.err
+
+/-- every node and every error the context holds (the ghost fields are not constrained) -/
+def St.posGE (off : Nat) (st : St) : Prop := (∀ c ∈ st.cache, CacheEntry.posGE off c) ∧ errGE off st.ctxErr
+
+/-- a file set as AddFile builds it, as far as Position is concerned: one recorded offset per file, none
+    above the next free position, position 0 never handed out (NewFileSet starts at 1) -/
+structure Text.FileSet.WF (fs : FileSet) : Prop where
+  len : fs.files.length = fs.offsets.length
+  le : ∀ o ∈ fs.offsets, o ≤ fs.pos
+  pos : 1 ≤ fs.pos
 
 end PV
